@@ -224,19 +224,39 @@ def run(ctx: Ctx):
             ctx.error(f"PeerConnection.{prop} not found")
             continue
         rets = [n for n in ast.walk(f.node) if isinstance(n, ast.Return) and n.value is not None]
+        # the stamp may be read once into a local (`v = self.<attr>`) that is tested and subtracted
+        local = {t.id for x in ast.walk(f.node) if isinstance(x, ast.Assign)
+                 and A.dotted(x.value) == f"self.{attr}" for t in x.targets if isinstance(t, ast.Name)}
         ok = any(isinstance(r.value, ast.BinOp) and isinstance(r.value.op, ast.Sub)
                  and clock_sources(model, pc.module, r.value.left, pc)
-                 and A.dotted(r.value.right) == f"self.{attr}" for r in rets)
+                 and (A.dotted(r.value.right) == f"self.{attr}"
+                      or (isinstance(r.value.right, ast.Name) and r.value.right.id in local)) for r in rets)
         if not ok:
             ctx.fail(cons, f.loc(), f"{prop} is not `now - self.{attr}`")
         if prop == "dwa_wait_time":
+            # the stamp is cleared by the reader thread when the DWA arrives while the I/O thread
+            # evaluates this property for the timer check: it is read ONCE (directly or through a
+            # property that reads it), so that the test and the subtraction see the same value
+            readers_ = {m.name for m in pc.all_funcs if m.is_property and m is not f and any(
+                isinstance(x, ast.Attribute) and x.attr == attr and A.dotted(x.value) == "self"
+                for x in ast.walk(m.node))}
+            loads = [x for x in ast.walk(f.node) if isinstance(x, ast.Attribute) and isinstance(x.ctx, ast.Load)
+                     and A.dotted(x.value) == "self" and (x.attr == attr or x.attr in readers_)]
+            ctx.inst(cons + "#read-once", sample=len(loads))
+            if len(loads) > 1:
+                ctx.fail(cons + "#read-once", f.loc(loads[1]), f"{prop} reads the DWR time stamp {len(loads)} times "
+                         f"({[ast.unparse(x) for x in loads]}): the reader thread resets it to 0 when the DWA "
+                         f"arrives; between a test `> 0` and the subtraction that makes the wait `now - 0` - the "
+                         f"timer check of that round closes the connection with DWA_TIMEOUT although the DWA "
+                         f"arrived in time")
             zero = [r for r in rets if model.try_fold(r.value, pc.module, pc) == 0]
             gf = cfg_of(f)
             zn = [n for n in gf.nodes if n.kind == "stmt" and n.ast in zero]
             fs = must_facts(gf, atp, zn[0]) if zn else set()
+            stamp = ["self._last_dwr"] + sorted(local)
             if not zn or not (("self.is_waiting_for_dwa", "truthy", None, False) in fs
-                              or ("self._last_dwr", ">", "0", False) in fs
-                              or ("self._last_dwr", "==", 0, True) in fs):
+                              or any((v_, ">", "0", False) in fs or (v_, "==", 0, True) in fs
+                                     or (v_, "truthy", None, False) in fs for v_ in stamp)):
                 ctx.fail(cons + "#idle", f.loc(), "dwa_wait_time must be 0 while no DWR is outstanding")
     w = pc.methods.get("is_waiting_for_dwa")
     ctx.inst("PeerConnection.is_waiting_for_dwa")
